@@ -77,6 +77,8 @@ C16Checks(e) ==
              e.names[i] = << i - 1, StarNumber[i], StarColor[i], StarWuXing[i], StarPosition[i], StarBeiDou[i],
                             StarXuanKong[i], StarQiMen[i], StarTaiYi[i],
                             StarNumber[i] \o StarColor[i] \o StarWuXing[i] \o StarBeiDou[i] >>))
+       \* the lunar-year object's year star (New-Year-based pillar year = the lunar year itself)
+       + (IF Has(e, "lys") THEN SumSeq(e.lys, LAMBDA q : Chk("C16.yearStar.lunarYearObject", q, q[2] = YearStar(q[1]))) ELSE 0)
        + SumN(n, LAMBDA i :
            LET x == R[i]
                J == JD3(x.d)
@@ -84,7 +86,7 @@ C16Checks(e) ==
                noon == [jdn |-> J, sod |-> 43200]
            IN IF x.p # 0 THEN Chk("C16.day.panic", k, FALSE)
               ELSE
-                Chk("C16.range", << k, x.ys, x.ms >>, \A q \in 1..4 : x.ys[q] \in 0..8 /\ x.ms[q] \in 0..8)
+                Chk("C16.range", << k, x.ys, x.ms >>, (\A q \in 1..4 : x.ys[q] \in 0..8 /\ x.ms[q] \in 0..8) /\ (Has(x, "ds") => x.ds \in 0..8))
                 + (IF x.x = 1 THEN 0
                    ELSE Chk("C16.yearStar.newYear", << k, x.ly, x.ys[1] >>, x.ys[1] = YearStar(x.ly))
                         + Chk("C16.yearStar.lichunDay", << k, x.ys[2] >>, x.ys[2] = YearStar(PillarYearByDay(y, J, T[PosLiChun])) /\ x.ys[4] = x.ys[2])
